@@ -262,6 +262,8 @@ pub mod fl {
         #[verifier::external_body]
         pub fn powf(self, e: Fl) -> (r: Fl) ensures r == mk(xr_powf(val(self), val(e))) { Fl { v: self.v.powf(e.v) } }
         #[verifier::external_body]
+        pub fn recip(self) -> (r: Fl) ensures r == fl_div(mk(XR::Fin(1real)), self) { Fl { v: 1.0 / self.v } }
+        #[verifier::external_body]
         pub fn abs(self) -> (r: Fl) ensures r == mk(xr_abs(val(self))) { Fl { v: self.v.abs() } }
         #[verifier::external_body]
         pub fn min(self, o: Fl) -> (r: Fl) ensures r == mk(xr_min(val(self), val(o))) { Fl { v: self.v.min(o.v) } }
